@@ -47,7 +47,10 @@ type c19Agg struct {
 }
 
 func c19Aggs() []c19Agg {
-	mk := func(name, kind string, a *gripql.Aggregate) c19Agg { a.Name = name; return c19Agg{Name: name, Kind: kind, A: a} }
+	mk := func(name, kind string, a *gripql.Aggregate) c19Agg {
+		a.Name = name
+		return c19Agg{Name: name, Kind: kind, A: a}
+	}
 	var out []c19Agg
 	out = append(out, mk("count", "count", &gripql.Aggregate{Aggregation: &gripql.Aggregate_Count{Count: &gripql.CountAggregation{}}}))
 	for _, sz := range []int{0, 1, 2} {
